@@ -25,6 +25,7 @@ SHAPES = {
     "qq": ("tsl", 2, ("tsl", 2, ("ts",))),
     "tss32": ("tss",),
     "tsd32": ("tsd", "int", ("ts",)),
+    "dl": ("tsl", 0, ("ts",)),            # dynamic list: grows on demand (size 0 = no fixed size)
 }
 KIND = {"ts": 0, "tss": 1, "tsd": 2, "tsl": 3, "tsw": 4, "tsb": 5}
 
@@ -156,7 +157,10 @@ class Node:
             return True
         if k == "tsl":
             lb, rb = op.index("["), op.index("]")
-            self.children[int(op[lb + 1:rb])].apply(op[rb + 1:], t)
+            i = int(op[lb + 1:rb])
+            while self.shape[1] == 0 and i >= len(self.children):
+                self.children.append(Node(self.shape[2]))          # a dynamic list grows up to the written index
+            self.children[i].apply(op[rb + 1:], t)
             self.touch(t)
             return True
         if k == "tsb":
@@ -199,7 +203,7 @@ class Node:
     def all_valid(self):
         k = self.kind
         if k in ("tsl", "tsb"):
-            return all(c.valid() for c in self.children)
+            return bool(self.children) and all(c.valid() for c in self.children)     # (a dynamic list may have no element yet)
         if k == "tsw":
             return self.count >= self.shape[2]       # the minimum count gates all_valid
         return self.valid()
